@@ -299,7 +299,7 @@ def _token_seq(ctx, name="parts"):
     return ps
 
 
-@contract("JSONPointer._encode==pointer_text", ("C04", "C14", "C03", "C20"), [P + "_encode"], replay=("encode_replay", [], "codec_candidates"))
+@contract("JSONPointer._encode==pointer_text", ("C04", "C14", "C03", "C20", "C15"), [P + "_encode"], replay=("encode_replay", [], "codec_candidates"))
 def _encode_body(ctx):
     ps = _token_seq(ctx)
     kind = ctx.bool("as_tuple")
@@ -343,7 +343,7 @@ def _index_summary(it, fv, args, kwargs):
 _INDEX_SUMMARY = {"jsonpath.pointer:JSONPointer._index": _index_summary, "specs.rfc6901:index_token": _index_summary}
 
 
-@contract("JSONPointer._parse==parse_text", ("C04", "C14", "C03", "C20"), [P + "_parse"], replay=("parse_replay", [], "codec_candidates"))
+@contract("JSONPointer._parse==parse_text", ("C04", "C14", "C03", "C20", "C05", "C15"), [P + "_parse"], replay=("parse_replay", [], "codec_candidates"))
 def _parse_body(ctx):
     s = ctx.str("s")
     lo, hi = ptr.JSONPointer.min_int_index, ptr.JSONPointer.max_int_index
